@@ -22,6 +22,11 @@ type seed struct {
 }
 
 var seeds = []seed{
+	{"removeIndexRange shifts the flags by another distance than keys and containers", "R3", "roaringarray.go", "\tcopy(ra.needCopyOnWrite[begin:], ra.needCopyOnWrite[end:])\n", "\tcopy(ra.needCopyOnWrite[begin:], ra.needCopyOnWrite[end-begin:])\n", "removeIndexRange|P0 shifted"},
+	{"removeAtIndex forgets to shift the flags", "R3", "roaringarray.go", "\tcopy(ra.needCopyOnWrite[i:], ra.needCopyOnWrite[i+1:])\n\n\tra.resize(len(ra.keys) - 1)\n", "\tra.resize(len(ra.keys) - 1)\n", "removeAtIndex|P0 shifted"},
+	{"DenseSize adds one before widening the maximum", "U1", "roaring.go", "\tmaximum := 1 + uint64(rb.Maximum())\n", "\tmaximum := uint64(rb.Maximum() + 1)\n", "w32:(*roaring.Bitmap).DenseSize"},
+	{"intIterator.AdvanceIfNeeded compares its chunk base with a bare key", "U5", "roaring.go", "\tto := minval & 0xffff0000\n", "\tto := uint32(highbits(minval))\n", "AdvanceIfNeeded|base field compared"},
+	{"a 64-bit static operation copies the tail of x1 from the position of x2", "IDX1", "roaring64/roaring64.go", "\t\tanswer.highlowcontainer.appendCopyMany(x1.highlowcontainer, pos1, length1)\n", "\t\tanswer.highlowcontainer.appendCopyMany(x1.highlowcontainer, pos2, length1)\n", "cursor pos2"},
 	{"the size bound narrows the cardinality to int", "U6", "roaring.go", "\t// two bytes per value, computed in 64 bits: int(cardinality) wraps on 32-bit targets\n\tvalsarray := 2 * cardinality\n", "\tvalsarray := uint64(arrayContainerSizeInBytes(int(cardinality)))\n", "BoundSerializedSizeInBytes|cardinality narrowed"},
 	{"intIterator.init re-aims its run cursor field by field and forgets the offset", "R2", "roaring.go", "\t\t\tii.runIter = runIterator16{rc: t, curIndex: 0, curPosInIndex: 0}\n", "\t\t\tii.runIter.rc = t\n\t\t\tii.runIter.curIndex = 0\n", "init|re-aims runIter"},
 	{"the stream adapter skips with Seek when the reader happens to offer it", "B7", "internal/byte_input.go", "func (b *ByteInputAdapter) SkipBytes(n int) error {\n", "func (b *ByteInputAdapter) SkipBytes(n int) error {\n\tif s, ok := b.r.(io.Seeker); ok {\n\t\tif _, err := s.Seek(int64(n), io.SeekCurrent); err != nil {\n\t\t\treturn err\n\t\t}\n\t\tb.readBytes += n\n\t\treturn nil\n\t}\n", "SkipBytes|reader asserted"},
